@@ -265,6 +265,42 @@ func (d *Driver) Apply(s Step) bool {
 		}
 		return d.rolledBack(Step(inner), n)
 
+	case "multi": // several steps of ONE signer as one transaction; if it succeeds every message is judged by its own contract
+		// (observed between the messages), if any message fails the whole transaction is rolled back
+		inners, _ := s["inner"].([]any)
+		var got []TxSpec
+		d.collect = &got
+		func() {
+			defer func() { d.collect = nil }()
+			for _, in := range inners {
+				if m, ok := in.(map[string]any); ok {
+					d.Apply(Step(m))
+				}
+			}
+		}()
+		same := len(got) >= 2
+		for _, t := range got {
+			if t.Signer != got[0].Signer || len(t.Msgs) != 1 {
+				same = false
+			}
+		}
+		if !same { // different signers (or nothing to combine): ordinary transactions
+			for _, t := range got {
+				d.C.Queue(t)
+			}
+			return len(got) > 0
+		}
+		tx := TxSpec{Signer: got[0].Signer, Fee: got[0].Fee, Ev: newEvent("multi.rolledback", got[0].Signer)}
+		var names []any
+		for _, t := range got {
+			tx.Msgs = append(tx.Msgs, t.Msgs[0])
+			tx.Evs = append(tx.Evs, t.Ev)
+			names = append(names, t.Ev.Name)
+		}
+		tx.Ev.Args["inner"], tx.Ev.Args["times"] = names, 1
+		d.C.Queue(tx)
+		return true
+
 	case "createAssetInfo": // the permissionless oracle listing of a denom
 		ev := newEvent("oracle.MsgCreateAssetInfo", user)
 		ev.Args["denom"] = s.S("d")
